@@ -161,7 +161,7 @@ def coq_res(o, f):
 
 
 # ---- random FmtStrs --------------------------------------------------------------
-ALPHA_PLAIN = "abcxyz XY09.,-_[];m"
+ALPHA_PLAIN = "abcxyz XY09.,-_[];m{}%"      # incl. characters that mean something to str.format / %-formatting
 ALPHA_CTRL = "\n\t\r\x00\x07"
 ALPHA_WIDE = "Ｅ中한"
 ALPHA_COMB = "̀́"
